@@ -10,7 +10,7 @@ func init() {
 			"zero runs of exactly 15/16/17/62 before a non-zero, EOB-only, sparse, uniform, small, near-half-quantum, hill-climbed longest/most-stuffed blocks, FDCT of pixel patterns}, " +
 			"history {full, full+one extra unit, too few, wrong-N call, invalid block, writer failing at the k-th Write, refused Reset} each followed by calls after the error, fresh or reused Encoder); " +
 			"every written byte is read back by an independent T.81 reader (Huffman tables taken from the file) and compared coefficient by coefficient with round-to-nearest(coef/q) (exact ties accepted either way), completed files also by image/jpeg; " +
-			"distinct = (colour type, size class, coefficient class as confirmed in the decoded stream, quantisation class, history class, fresh/reused) tuples + (dct, pixel pattern) + (alloc, colour type, ...)",
+			"distinct = (colour type, size class, coefficient class as confirmed in the decoded stream, quantisation class, history class) tuples (fresh/reused Encoder is counted, not part of the tuple) + (dct, pixel pattern) + (alloc, colour type, ...)",
 		Assumptions: []string{
 			"image/jpeg is correct as a second decoder (only acceptance and dimensions are used)",
 			"images needing more than 20000 units are not completed: headers and the first 1500-4000 units are checked, and that no EOI has appeared",
